@@ -274,6 +274,23 @@ where
     }
 }
 
+#[cfg(feature = "verif-hooks")]
+impl<R, IO> TcpTransport<R, IO>
+where
+    R: tower::Service<Box<str>, Response = SocketAddrs, Error = io::Error> + Send + Clone + 'static,
+    R::Future: Send + 'static,
+{
+    /// Verification hook: the order in which `connect_to_addrs` would attempt `addrs`.
+    pub fn verif_connecting_order(&self, addrs: Vec<SocketAddr>) -> Vec<SocketAddr> {
+        let mut connecting = self.connecting(SocketAddrs::from_iter(addrs));
+        let mut out = Vec::new();
+        while let Some(addr) = connecting.addresses.pop() {
+            out.push(addr);
+        }
+        out
+    }
+}
+
 /// Future which implements the happy eyeballs algorithm for connecting to a remote address.
 ///
 /// This follows the algorithm described in [RFC8305](https://tools.ietf.org/html/rfc8305),
@@ -647,6 +664,12 @@ fn get_host_and_port(uri: &Uri) -> Result<(Box<str>, u16), TcpConnectionError> {
     };
 
     Ok((host.into(), port))
+}
+
+/// Verification hook: exposes the private `get_host_and_port`.
+#[cfg(feature = "verif-hooks")]
+pub fn verif_get_host_and_port(uri: &Uri) -> Result<(Box<str>, u16), TcpConnectionError> {
+    get_host_and_port(uri)
 }
 
 fn bind_local_address(
